@@ -28,6 +28,7 @@ def parseOp (s : String) : Option Op :=
     if s.startsWith "g" then body.toNat?.map Op.get
     else if s.startsWith "d" then body.toNat?.map Op.del
     else if s.startsWith "p" then (parseKV "=" body).map (fun (k, v) => Op.put k v)
+    else if s.startsWith "P" then body.toNat?.map Op.putBig
     else none
 
 def parseAction (s : String) : Option (List Op) :=
@@ -61,6 +62,7 @@ def showResult (r : Result) : String :=
     | none => "ok"
     | some .scripted => "fs"
     | some .perm => "fp"
+    | some .invalid => "fv"
   let outs := if r.outs.isEmpty then "-" else "/".intercalate (r.outs.map showAct)
   s!"{r.id}~{st}~{r.fee}~{showDims r.units}~{outs}"
 
